@@ -46,7 +46,7 @@ MIRI_W = [0, 1, 7, 63, 64, 65, 128, 129, 256, 521]
 PROPS = {
     "C01": dict(
         bin="c01",
-        lanes=lanes(quick_scale=4.0, thorough_scale=60.0,
+        lanes=lanes(quick_scale=20.0, thorough_scale=120.0,
                     miri=dict(light=0.004, scale=0.002, widths=MIRI_W), miri_quick=False),
         primary_lane="checked",
         rule="Cases are (operation group, width, operand tuple): a fixed directed corpus (all pairs at BITS<=4, "
@@ -58,7 +58,7 @@ PROPS = {
     ),
     "C02": dict(
         bin="c02",
-        lanes=lanes(quick_scale=3.0, thorough_scale=40.0,
+        lanes=lanes(quick_scale=12.0, thorough_scale=80.0,
                     miri=dict(light=0.003, scale=0.002, widths=MIRI_W), miri_quick=False),
         primary_lane="checked",
         hooks_expected=["ADDMUL_TRIM_A_LO", "ADDMUL_TRIM_A_HI", "ADDMUL_TRIM_B_LO", "ADDMUL_TRIM_B_HI",
@@ -72,7 +72,7 @@ PROPS = {
     ),
     "C03": dict(
         bin="c03",
-        lanes=lanes(quick_scale=2.0, thorough_scale=30.0,
+        lanes=lanes(quick_scale=6.0, thorough_scale=40.0,
                     miri=dict(light=0.003, scale=0.004, widths=MIRI_W), asan=True),
         primary_lane="checked",
         hooks_expected=["DIV_NUM_ZERO", "DIV_NUM_SHORT", "DIV_1X1", "DIV_NX1", "DIV_NX2", "DIV_NXM", "KNUTH_FORCED",
@@ -88,7 +88,7 @@ PROPS = {
     ),
     "C05": dict(
         bin="c05",
-        lanes=lanes(quick_scale=1.0, thorough_scale=10.0,
+        lanes=lanes(quick_scale=4.0, thorough_scale=20.0,
                     miri=dict(light=0.0008, scale=0.003, widths=MIRI_W), miri_quick=False),
         primary_lane="checked",
         rule="Cases: shl / shr (overflowing, checked, saturating, wrapping, arithmetic_shr, and << >> <<= >>= for usize,u8,u16,"
@@ -101,7 +101,7 @@ PROPS = {
     ),
     "C06": dict(
         bin="c06",
-        lanes=lanes(quick_scale=3.0, thorough_scale=40.0,
+        lanes=lanes(quick_scale=12.0, thorough_scale=80.0,
                     miri=dict(light=0.002, scale=0.003, widths=MIRI_W)),
         primary_lane="checked",
         rule="Cases: logic (! & | ^ in all shapes), count (leading/trailing zeros/ones, count_ones/zeros, bit_len, byte_len, "
@@ -113,7 +113,7 @@ PROPS = {
     ),
     "C07": dict(
         bin="c07",
-        lanes=lanes(quick_scale=2.0, thorough_scale=30.0,
+        lanes=lanes(quick_scale=8.0, thorough_scale=50.0,
                     miri=dict(light=0.002, scale=0.002, widths=MIRI_W), miri_quick=False),
         primary_lane="checked",
         rule="Cases: from.<T> for bool,u8..u128,usize,i8..i128,isize (try_from incl. error kind, bits field and wrapped payload; "
@@ -126,7 +126,7 @@ PROPS = {
     ),
     "C14": dict(
         bin="c14",
-        lanes=lanes(quick_scale=4.0, thorough_scale=60.0,
+        lanes=lanes(quick_scale=12.0, thorough_scale=100.0,
                     miri=dict(light=0.01, scale=0.0015), asan=True),
         primary_lane="checked",
         hooks_expected=["KNUTHN_FORCED", "KNUTHN_ADDBACK", "KNUTHN_STEP", "KNUTH_FORCED", "KNUTH_QZERO",
@@ -144,7 +144,7 @@ PROPS = {
     ),
     "C15": dict(
         bin="c15",
-        lanes=lanes(quick_scale=10.0, thorough_scale=150.0,
+        lanes=lanes(quick_scale=40.0, thorough_scale=300.0,
                     miri=dict(light=0.01, scale=0.004)),
         primary_lane="checked",
         hooks_expected=["ADDMUL_TRIM_A_LO", "ADDMUL_TRIM_A_HI", "ADDMUL_TRIM_B_LO", "ADDMUL_TRIM_B_HI",
@@ -158,7 +158,7 @@ PROPS = {
     ),
     "C08": dict(
         bin="c08",
-        lanes=lanes(quick_scale=6.0, thorough_scale=80.0,
+        lanes=lanes(quick_scale=30.0, thorough_scale=200.0,
                     miri=dict(light=0.01, scale=0.004, widths=[0, 7, 8, 57, 60, 64, 65, 124, 128, 250, 256]),
                     asan=True, memcheck=True),
         primary_lane="checked",
@@ -172,7 +172,7 @@ PROPS = {
     ),
     "C09": dict(
         bin="c09",
-        lanes=lanes(quick_scale=1.5, thorough_scale=20.0,
+        lanes=lanes(quick_scale=5.0, thorough_scale=30.0,
                     miri=dict(light=0.002, scale=0.002, widths=[0, 1, 7, 64, 65, 128, 256]), memcheck=True),
         primary_lane="checked",
         rule="Cases: to_base (digit iterators for 15 fixed bases incl. 10^19, 2^63, 2^64-1 plus a random base, and the inverse "
@@ -187,7 +187,7 @@ PROPS = {
     ),
     "C10": dict(
         bin="c10",
-        lanes=lanes(quick_scale=2.0, thorough_scale=25.0,
+        lanes=lanes(quick_scale=6.0, thorough_scale=40.0,
                     miri=dict(light=0.002, scale=0.002, widths=[1, 7, 64, 65, 128, 129, 256])),
         primary_lane="checked",
         hooks_expected=["INVMOD_LEHMER_STEP", "INVMOD_EUCLID_STEP", "DIV_NXM", "DIV_NX1", "DIV_NX2", "ADDMUL_FULL_ROW"],
@@ -199,7 +199,7 @@ PROPS = {
     ),
     "C11": dict(
         bin="c11",
-        lanes=lanes(quick_scale=25.0, thorough_scale=400.0,
+        lanes=lanes(quick_scale=60.0, thorough_scale=600.0,
                     miri=dict(light=0.02, scale=0.01), miri_quick=False),
         primary_lane="checked",
         hooks_expected=["REDC_MUL_CARRY_TRACKED", "REDC_MUL_CARRY_IGNORED", "REDC_MUL_CARRY_SET", "REDC_SQ_WIDE", "REDC_SQ_NARROW",
@@ -213,7 +213,7 @@ PROPS = {
     ),
     "C12": dict(
         bin="c12",
-        lanes=lanes(quick_scale=2.0, thorough_scale=25.0,
+        lanes=lanes(quick_scale=6.0, thorough_scale=40.0,
                     miri=dict(light=0.002, scale=0.0004, widths=[1, 7, 64, 65, 128, 129, 256, 320]), miri_quick=False),
         primary_lane="checked",
         hooks_expected=["LEHMER_FROM_LE64", "LEHMER_FROM_LE128", "LEHMER_FROM_GT128", "PREFIX_RET_A1_SMALL", "PREFIX_RET_A2_SMALL_OK",
@@ -230,7 +230,7 @@ PROPS = {
     ),
     "C13": dict(
         bin="c13",
-        lanes=lanes(quick_scale=1.5, thorough_scale=20.0),
+        lanes=lanes(quick_scale=5.0, thorough_scale=30.0),
         primary_lane="checked",
         hooks_expected=["LOG_DECREMENT", "LOG_OVERFLOW_DECREMENT", "ROOT_FIXPOINT", "ROOT_STOP_INCREASE", "ROOT_CAPPED_INCREASE",
                         "ROOT_DECREASE"],
@@ -244,7 +244,7 @@ PROPS = {
     ),
     "C16": dict(
         bin="c16",
-        lanes=lanes(quick_scale=0.6, thorough_scale=8.0,
+        lanes=lanes(quick_scale=1.0, thorough_scale=8.0,
                     miri=dict(light=0.0015, scale=0.0001), asan=True),
         primary_lane="checked",
         rule="One case = (integration, width, value); integrations: serde_json, bincode, rlp, alloy_rlp, fastrlp 0.3/0.4, SCALE "
@@ -259,7 +259,7 @@ PROPS = {
     ),
     "C17": dict(
         bin="c17",
-        lanes=lanes(quick_scale=0.15, thorough_scale=3.0, quick_shards=8,
+        lanes=lanes(quick_scale=0.25, thorough_scale=3.0, quick_shards=8,
                     miri=dict(light=0.002, scale=0.0005, widths=[0, 7, 60, 63, 64, 65, 250, 256]), asan=True),
         primary_lane="checked",
         rule="One case = (decoder entry point, width, input bytes or text[, injected fault]); 57 entry points: byte-slice and text "
@@ -276,7 +276,7 @@ PROPS = {
     "C18": dict(
         bin="c18",
         lanes=dict(
-            quick=[dict(lane="checked", shards=8, scale=1.0), dict(lane="release", shards=8, scale=1.0)],
+            quick=[dict(lane="checked", shards=8, scale=3.0), dict(lane="release", shards=8, scale=3.0)],
             thorough=[dict(lane="checked", shards=16, scale=15.0), dict(lane="release", shards=16, scale=15.0)]
                      + [dict(lane="release", shards=16, scale=1.0, extra=dict(f32sweep=w), tag=f"f32sweep{w}") for w in (7, 25, 64, 128)]),
         primary_lane="checked",
@@ -292,7 +292,7 @@ PROPS = {
     ),
     "C20": dict(
         bin="c20",
-        lanes=lanes(quick_scale=2.0, thorough_scale=12.0,
+        lanes=lanes(quick_scale=3.0, thorough_scale=15.0,
                     miri=dict(light=0.0005, scale=0.0003, widths=[0, 1, 7, 64, 65, 128, 256]), miri_quick=False),
         primary_lane="checked",
         rule="Differential cases: for every width and operand tuple each facade (six operator shapes of + - * / % & | ^, unary - !, "
@@ -356,7 +356,7 @@ PROPS["C04"] = dict(
     bin="c04",
     custom=_c04_custom,
     probe_replay=_probe_replay,
-    lanes=lanes(quick_scale=4.0, thorough_scale=60.0,
+    lanes=lanes(quick_scale=15.0, thorough_scale=120.0,
                 miri=dict(light=1.0, scale=0.002, widths=[0, 1, 7, 63, 64, 65, 128, 129, 256])),
     primary_lane="checked",
     rule="(a) closure walk: every shard runs one history; each step applies an operation group from the safe public API "
